@@ -993,6 +993,35 @@ func (v *vf) vf4() {
 	if n < 6 {
 		core.Failf("vacuity guard: VF4 expected >= 6 index update sites, found %d", n)
 	}
+	// VF4b: the counters change only by adding the Size of a position (the only events that change what is on disk
+	// or what is indexed); any other store (subtracting, resetting, scaling) breaks the identity for the running process
+	var bad []string
+	ns := 0
+	for _, fn := range v.p.LibFuncs() {
+		for _, b := range fn.Blocks {
+			for _, in := range b.Instrs {
+				f, base, val := core.StoreField(in)
+				if (f != total && f != reclaim) || freshInFn(base, fn) {
+					continue
+				}
+				ns++
+				ok := false
+				if bo, isBo := val.(*ssa.BinOp); isBo && bo.Op == token.ADD {
+					for _, pr := range [][2]ssa.Value{{bo.X, bo.Y}, {bo.Y, bo.X}} {
+						if core.LastField(pr[0]) == f {
+							if sf, _ := core.LoadedField(core.Unwrap(pr[1])); sf == R.PosSize {
+								ok = true
+							}
+						}
+					}
+				}
+				if !ok {
+					bad = append(bad, fmt.Sprintf("%s changes DB.%s at %s by something other than '+= <position>.Size'", core.FuncKey(fn), f.Name(), v.p.InstrPos(in)))
+				}
+			}
+		}
+	}
+	v.rep.Check(len(bad) == 0, "VF4", "counter-stores-are-size-adds", fmt.Sprintf("all %d stores to the accounting counters add the Size of a position", ns), "", strings.Join(sortedStr(bad), "; ")+": the live counters stop matching what the files hold (and what a restart recomputes)", true)
 }
 
 // chargedDeep: charged here, or (for parameters) at every call site.
